@@ -3,7 +3,7 @@
 //! legs (argv[1]):
 //!   timemacro  case = ( chunk ... )            scripted reads through Digest::reader_sync_time_macros
 //!   toonew     case = ( (m?) (c?) start )      include_is_too_new on explicit time stamps
-//!   ppkey      case = ( itm ( (bytes date mtime) ... ) )   equality pattern of preprocessor_cache_entry_hash_key
+//!   ppkey      case = ( itm ( (bytes date mtime args env extra plusplus) ... ) )   equality pattern of preprocessor_cache_entry_hash_key
 //!   linemarker case = ( cfg start date cwd input text ( file ... ) )   process_preprocessed_file on real files
 //!   ppcache    case = ( step ... )             real header files under /dev/shm, the real include recorder,
 //!                                              PreprocessorCacheEntry::add_result / lookup_result_digest for
@@ -18,6 +18,7 @@ use std::collections::HashMap;
 use std::ffi::OsStr;
 use std::io::Read;
 use std::os::unix::ffi::OsStrExt;
+use std::os::unix::ffi::OsStringExt;
 use std::path::{Path, PathBuf};
 use std::time::{Duration, SystemTime, UNIX_EPOCH};
 use vh::{catch, Sx};
@@ -386,8 +387,9 @@ fn run_ppcache(case: &Sx) -> Sx {
 
 // ------------------------------------------------------------------ ppkey
 
-/// case = ( itm ( (bytes date mtime) ... ) ): the preprocessor-cache key of an input file with these contents,
-/// SOURCE_DATE_EPOCH and mtime; result = one number per variant: 0 = mode disabled (None), otherwise 1 + index
+/// case = ( itm ( (bytes date mtime (arg ...) ((name value) ...) (extra ...) plusplus) ... ) ): the preprocessor-cache
+/// key of requests for one input path with these contents, SOURCE_DATE_EPOCH, mtime, hashed arguments, environment,
+/// extra hashes and ++ flag; result = one number per variant: 0 = mode disabled (None), otherwise 1 + index
 /// of the first variant with an equal key.
 fn run_ppkey(case: &Sx) -> Sx {
     let td = tempfile::Builder::new().prefix("vh-c04k-").tempdir_in("/dev/shm").unwrap();
@@ -403,14 +405,19 @@ fn run_ppkey(case: &Sx) -> Sx {
         } else {
             std::env::set_var("SOURCE_DATE_EPOCH", OsStr::from_bytes(date));
         }
+        let os = |x: &Sx| std::ffi::OsString::from_vec(x.bytes().to_vec());
+        let args: Vec<std::ffi::OsString> = v.arg(3).list().iter().map(os).collect();
+        let env: Vec<(std::ffi::OsString, std::ffi::OsString)> =
+            v.arg(4).list().iter().map(|kv| (os(kv.arg(0)), os(kv.arg(1)))).collect();
+        let extra: Vec<String> = v.arg(5).list().iter().map(|x| x.str()).collect();
         let k = sccache::verif_hooks::compiler::preprocessor_cache::preprocessor_cache_entry_hash_key(
             "compilerdigest",
             sccache::verif_hooks::compiler::Language::C,
-            &[],
-            &[],
-            &[],
+            &args,
+            &extra,
+            &env,
             &input,
-            false,
+            v.arg(6).as_bool(),
             cfg,
         );
         keys.push(k.unwrap_or(None));
